@@ -20,6 +20,7 @@ import (
 
 type vfFaultPlan struct {
 	Outage  bool
+	WriteOutage bool // reads are answered, every write (and transaction start) fails: read-only replica, full disk
 	ReadOutage bool // only reads (SELECT) fail: the store does not answer a request's lookup in time but takes its write
 	FailAt  int    // 1-based operation number to fail at (0 = none)
 	Kind    string // "error" | "crash"
@@ -75,6 +76,22 @@ func (w *vfWorld) setPrimaryReadOutage(on bool) {
 	}
 }
 
+// setPrimaryFailFast: the primary refuses every operation at once (stopped server,
+// closed handle) while the read timeout keeps its production value: the request
+// has to wait for the timeout before the cache is consulted.  Requests must be
+// driven with DoAdvancing so that virtual time moves when they wait.
+func (w *vfWorld) setPrimaryFailFast(on bool) {
+	vfFaultOutage("primary", on)
+	w.state.remoteDBQueryTimeout = 2 * time.Second
+}
+
+// setPrimaryWriteOutage: the primary answers reads but refuses writes.
+func (w *vfWorld) setPrimaryWriteOutage(on bool) {
+	vfFaultMu.Lock()
+	vfFaults["primary"].WriteOutage = on
+	vfFaultMu.Unlock()
+}
+
 func vfFaultOutage(db string, on bool) {
 	vfFaultMu.Lock()
 	vfFaults[db].Outage = on
@@ -103,6 +120,13 @@ func vfFaultStep(label, op string) (err error, crash bool) {
 		// (see vfWorld.setPrimaryOutage) reads fall through to the cache at
 		// once and writes fail, deterministically and without waiting.
 		return errors.New("vfault: database unreachable"), false
+	}
+	if p.WriteOutage {
+		lo := strings.ToLower(op)
+		if lo == "begin" || lo == "commit" || strings.Contains(lo, "insert") || strings.Contains(lo, "update") || strings.Contains(lo, "delete") || strings.Contains(lo, "replace") {
+			vfFaultMu.Unlock()
+			return errors.New("vfault: database is read-only"), false
+		}
 	}
 	if p.ReadOutage && strings.Contains(strings.ToLower(op), "select") {
 		vfFaultMu.Unlock()
